@@ -9,7 +9,7 @@ HERE = os.path.dirname(os.path.abspath(__file__))
 VERIF = os.path.dirname(HERE)
 sys.path.insert(0, os.path.join(VERIF, "selftest"))
 from mutants import MUTANTS
-SCRATCH = "/tmp/ragc_selftest"
+SCRATCH = "/tmp/ragc_selftest_%d" % os.getpid()      # per process: two runs must not share a scratch copy
 REPO = "/repo"
 
 def apply(dst, subs):
